@@ -141,6 +141,12 @@ func readSource(name string) ([]byte, error) {
 func normalizeNewHelpers(p *Program, ref []invEntry, prev map[string][]byte) map[string][]byte {
 	normalizePrev = prev
 	refKeys := refKeySet(ref)
+	refSigs := map[funcID]string{}
+	for _, e := range ref {
+		if e.kind == "F" {
+			refSigs[funcID{e.pkg, e.recv, e.name}] = e.sig
+		}
+	}
 	counter := 0
 	editsByFile := map[string][]textEdit{}
 	srcByFile := map[string][]byte{}
@@ -163,7 +169,12 @@ func normalizeNewHelpers(p *Program, ref []invEntry, prev map[string][]byte) map
 				}
 				id := funcID{pk.PkgPath, canonTypeName(pk.PkgPath, recvTypeNameOf(fd)), fd.Name.Name}
 				if refKeys[id] {
-					continue
+					// an unexported helper of the inventory whose signature changed is treated like a new helper: its
+					// callers are compared with the reference through its body, not through an interface that moved
+					if refSigs[id] == "" || refSigs[id] == anonSigString(obj) || ast.IsExported(fd.Name.Name) {
+						continue
+					}
+					normalizeNotes = append(normalizeNotes, fmt.Sprintf("helper %s.%s changed its signature with respect to the reference inventory (%s -> %s): inlined into its callers for the analysis", relOrRoot(pk.PkgPath), fd.Name.Name, refSigs[id], anonSigString(obj)))
 				}
 				if _, renamed := renameFn[id]; renamed {
 					continue
@@ -1203,4 +1214,21 @@ func inlineExpr(p *Program, pk *packages.Package, f *ast.File, call *ast.CallExp
 		body = append(body[:sb.start-es], append([]byte(sb.text), body[sb.end-es:]...)...)
 	}
 	return textEdit{start: tfile.Offset(call.Pos()), end: tfile.Offset(call.End()), text: "(" + string(body) + ")"}, true
+}
+
+// anonSigString: the signature of obj spelled like the inventory does (parameter and result names dropped, packages
+// by name, no receiver).
+func anonSigString(obj *types.Func) string {
+	sig, ok := obj.Type().(*types.Signature)
+	if !ok {
+		return ""
+	}
+	anon := func(t *types.Tuple) *types.Tuple {
+		var vs []*types.Var
+		for i := 0; i < t.Len(); i++ {
+			vs = append(vs, types.NewVar(0, nil, "", t.At(i).Type()))
+		}
+		return types.NewTuple(vs...)
+	}
+	return types.TypeString(types.NewSignatureType(nil, nil, nil, anon(sig.Params()), anon(sig.Results()), sig.Variadic()), func(pk *types.Package) string { return pk.Name() })
 }
